@@ -31,7 +31,7 @@ PROFILE = profile(nv=(1, 5), n_requests=(5, 40), builtin=[True], n_scripted=[1],
 def st_case(draw) -> Dict[str, Any]:
     w = draw(st_world(PROFILE))
     parts = draw(st.lists(st.integers(1, 30), min_size=1, max_size=6) | st.lists(st.integers(1, 12), min_size=3, max_size=6))
-    return {"world": w, "parts": parts, "reinject": draw(st.booleans()), "det": draw(st.sampled_from([True, True, False])), "stateful": draw(st.booleans()),
+    return {"world": w, "parts": parts, "reinject": draw(st.sampled_from([False, True, "all"])), "det": draw(st.sampled_from([True, True, False])), "stateful": draw(st.booleans()),
             "end_offset": draw(st.integers(0, 3 * w["sim"]["timestep_duration_seconds"])), "range_steps": draw(st.integers(0, 12))}
 
 
@@ -155,7 +155,10 @@ def check_case(case: Dict[str, Any]) -> Tuple[List[Violation], Set[str], Dict[st
                 if mode == "split":
                     for a in parts:
                         rp = hive_cosim.crank(rp, a).runner_payload
-                        if case["reinject"]:
+                        if case["reinject"] == "all":
+                            # a client that owns the controllers hands the whole set back, in the same order
+                            rp = rpo.set_instruction_generators(rp, tuple(rp.u.step_update.ordered_instruction_generators))
+                        elif case["reinject"]:
                             d = rpo.get_instruction_generator(rp, Dispatcher)
                             rp = rpo.update_instruction_generator(rp, d)
                 elif mode == "whole":
